@@ -41,6 +41,7 @@ pub fn replay(_cfg: &Cfg, path: &str) -> i32 {
             return 3;
         }
     };
+    TWIN_MOD.store(1, std::sync::atomic::Ordering::Relaxed); // every state's twins, a superset of what the run judged
     let mut sink = Sink::new();
     let mut rng = Rng::new(0, 0);
     let mut rec = GameRecord::new(&rec0.family, rec0.seed, rec0.index, rec0.start.clone());
